@@ -50,6 +50,12 @@ def run(ctx, info):
             for sd in seeds:
                 jobs.append({"opt": nm, "cfg": {"max_cycles": r.choice([2, 5]), "fitness_error": None},
                              "task": search.cont_task(obj=r.choice(["step", "step", "sphere", "linear"]), minmax=mm, seed=sd, dim=r.choice([2, 3]))})
+    # "any pool completion order": the optimizers whose step ends in the pooled greedy selection always run in thread mode too (with delays), the others in the thorough tier
+    pooled_users = [n for n in ("FicksLawOptimization", "KrillHerdOptimization", "WildebeestHerdOptimization", "WindDrivenOptimization") if n in names]
+    for nm in pooled_users:
+        for mm in ("min", "max"):
+            jobs.append({"opt": nm, "cfg": {"max_cycles": 3, "fitness_error": None, "population_size": 12}, "mode": "thread", "workers": 4,
+                         "task": search.cont_task(obj="sphere", minmax=mm, seed=r.randint(0, 10**6), delay=0.0005)})
     if not ctx.quick:
         for nm in names:
             jobs.append({"opt": nm, "cfg": {"max_cycles": 3, "fitness_error": None}, "mode": "thread", "workers": 3,
